@@ -259,8 +259,29 @@ func (c *cluster) generate(rt *rapid.T, p *profile, spec *checkSpec) {
 			c.step(vAct{A: "adv", T: 100})
 		}
 	}
+	// templates: scripted deep-state compositions, each with its own probability
+	if len(p.tpl) > 0 && !c.failed() {
+		names := make([]string, 0, len(p.tpl))
+		for n := range p.tpl {
+			names = append(names, n)
+		}
+		sort.Strings(names)
+		for _, n := range names {
+			if c.failed() {
+				break
+			}
+			if rapid.IntRange(0, 99).Draw(rt, "tpl-"+n) < p.tpl[n] {
+				if c.blackbox && n != "lagsnap" {
+					continue // the others need white-box state
+				}
+				templates[n](c, rt)
+			}
+		}
+	}
 	if !c.failed() && rapid.IntRange(0, 99).Draw(rt, "gated") < p.gatedBias && !c.blackbox {
 		c.step(vAct{A: "gate"})
+	} else if !c.failed() {
+		c.step(vAct{A: "free"})
 	}
 	steps := rapid.IntRange(p.steps[0], p.steps[1]).Draw(rt, "steps")
 	for i := 0; i < steps && !c.failed(); i++ {
